@@ -244,7 +244,7 @@ func (d c08) Execute(c *core.Case) *core.Result {
 								continue
 							}
 							for _, t := range a.Targets {
-								if q := posOf(w, t); q >= 0 && q < p {
+								if q := posOf(w, t); q >= 0 && q <= p {
 									f2 = append(f2, "entry-before-checkpoint-revoked-afterwards")
 								}
 							}
